@@ -460,7 +460,13 @@ fn c06_payload(rng: &mut Rng, idx: u64, tier: &str) -> Vec<u8> {
             rng.bytes(n)
         }
         _ => {
-            let n = if idx % 64 == 7 { tier_pick(tier, 600_000, 4_200_000) } else { rng.range(100, 9000) };
+            let n = if idx % 1024 == 7 {
+                tier_pick(tier, 600_000, 4_200_000)
+            } else if idx % 64 == 7 {
+                600_000
+            } else {
+                rng.range(100, 9000)
+            };
             rng.bytes(n)
         }
     }
@@ -707,7 +713,7 @@ pub(crate) fn c06_cross(rep: &mut Report, wf: &Wf, rng: &mut Rng, replay: &[Stri
 }
 
 pub fn run_c06(args: &Args, tier: &str, seed: u64) -> Report {
-    let n: u64 = args.u64("--cases", tier_pick(tier, 4_000, 150_000));
+    let n: u64 = args.u64("--cases", tier_pick(tier, 4_000, 60_000));
     let only = args.get("--only").and_then(|s| s.parse::<u64>().ok());
     let nthreads = if only.is_some() { 1 } else { threads() };
     let max_all = tier_pick(tier, 14usize, 20);
